@@ -86,6 +86,8 @@ def gen_cases(rng, tier):
     cases = []
     while len(cases) < n:
         c = trajgen.make_sim_case(rng, max_cells=6 if tier == "quick" else 12, max_steps=200 if tier == "quick" else 3000)
+        if rng.random() < 0.5:
+            trajgen.add_multi_edges(rng, c["desc"])      # self-loops and parallel edges: the engines alone are driven here
         # diffusion-only systems every fourth case
         if len(cases) % 4 == 3:
             c["desc"]["reactions"] = []
